@@ -21,7 +21,8 @@ SCALE = 16              # logged length = real length * SCALE; the model's 16 is
 ITER_CAP = 200          # iterators are cut after this many items (cyclic graphs)
 CALL_CPU_LIMIT = 20.0   # CPU seconds for one library call: a legitimate call on <= 30 nodes needs milliseconds
 
-NEEDS_NONSEED = ("RerootAtEdge", "ToOutgroupPosition", "CollapseEdge", "InsertChild", "RemoveChild", "ReAddChild", "Regraft")
+NEEDS_NONSEED = ("RerootAtEdge", "ToOutgroupPosition", "CollapseEdge", "InsertChild", "RemoveChild", "ReAddChild", "Regraft",
+                 "AddChildParent")
 NEEDS_INTERNAL = ("ReseedAt", "RerootAtNode", "CollapseClade", "NewChild", "InsertNewChild", "RotateChildren")
 REORIENT = ("ReseedAt", "RerootAtNode", "RerootAtEdge", "RerootAtMidpoint", "ToOutgroupPosition",
             "Ladderize", "Reorder", "RandomlyReorient", "RandomlyRotate")
@@ -352,6 +353,26 @@ class World(object):
             if par is None:
                 return None
             return lambda: par.remove_child(nd, suppress_unifurcations=su)
+        # ---- error-path family: calls the library refuses with a documented error
+        if action == "RemoveNonChild":          # y.remove_child(x) where x is not a child of y
+            return lambda: par.remove_child(nd, suppress_unifurcations=su)
+        if action == "AddChildSelf":
+            return lambda: nd.add_child(nd)
+        if action == "AddChildParent":
+            p0 = nd._parent_node
+            if p0 is None:
+                return None
+            return lambda: nd.add_child(p0)
+        if action == "PruneSubtreeForeign":
+            return lambda: t.prune_subtree(self.d.Node(), update_bipartitions=ub, suppress_unifurcations=su)
+        if action == "PruneSubtreeNone":
+            return lambda: t.prune_subtree(None, update_bipartitions=ub, suppress_unifurcations=su)
+        if action == "RemoveChildNone":
+            return lambda: nd.remove_child(None, suppress_unifurcations=su)
+        if action == "RemoveChildForeign":
+            return lambda: nd.remove_child(self.d.Node(), suppress_unifurcations=su)
+        if action == "ReseedAtForeign":
+            return lambda: t.reseed_at(self.d.Node(), update_bipartitions=False, suppress_unifurcations=su, collapse_unrooted_basal_bifurcation=cb)
         if action == "ReAddChild":              # add_child of a node that already is a child: documented no-op
             if par is None:
                 return None
@@ -418,6 +439,10 @@ def args_of_model(name, args):
         return name, {"x": A[0], "su": A[1]}
     if name == "EncodeBipartitions":
         return name, {"su": A[0], "cb": A[1], "ub": True}
+    if name == "RemoveNonChild":
+        return name, {"x": A[0], "y": A[1], "su": A[2]}
+    if name in ("AddChildSelf", "AddChildParent"):
+        return name, {"x": A[0]}
     raise core.MachineryError("unknown model action %s" % name)
 
 
@@ -526,11 +551,24 @@ def random_history(dendropy, case, want_api):
         elif act == "InsertNewChild" and internal and n < 30:
             a = {"x": rng.choice(internal), "i": rng.randint(0, 3), "l1": rng.choice([-1, 0])}
         elif act == "InsertChild" and nonseed:
-            a = {"x": rng.choice(nonseed), "i": rng.randint(0, 3)}
+            a = {"x": rng.choice(nonseed), "i": rng.choice([0, 1, 2, 3, 9])}      # 9: beyond the end of the child list
         elif act == "RemoveChild" and len(leaf_taxa) > 3 and nonseed:
             x = rng.choice(nonseed)
             if prunable(x):
                 a = {"x": x, "su": B()}
+        elif act == "RemoveNonChild" and n >= 3:
+            xi = rng.randrange(n)
+            cands = [j for j in range(n) if j != xi and g["par"][xi] != j + 1]
+            if cands:
+                a = {"x": keys[xi], "y": keys[rng.choice(cands)], "su": B()}
+        elif act in ("AddChildSelf", "RemoveChildNone", "RemoveChildForeign"):
+            a = {"x": rng.choice(keys), "su": B()}
+        elif act == "AddChildParent" and nonseed:
+            a = {"x": rng.choice(nonseed)}
+        elif act in ("PruneSubtreeForeign", "PruneSubtreeNone"):
+            a = {"ub": B(), "su": B()}
+        elif act == "ReseedAtForeign":
+            a = {"su": B(), "cb": B()}
         elif act == "ReAddChild" and nonseed:
             a = {"x": rng.choice(nonseed)}
         elif act == "RotateChildren" and internal:
@@ -566,6 +604,9 @@ ALL_FAM = ["ReseedAt", "RerootAtNode", "RerootAtEdge", "RerootAtMidpoint", "ToOu
            "FilterLeafNodes", "RetainTaxa", "PruneLeavesWithoutTaxa", "Ladderize", "Reorder", "RandomlyReorient",
            "RandomlyRotate", "ShuffleTaxa", "NewChild", "InsertNewChild", "InsertChild", "RemoveChild",
            "RotateChildren", "ReAddChild", "Regraft", "EncodeBipartitions",
+           # refused calls (documented errors): the tree must stay well formed
+           "RemoveNonChild", "RemoveNonChild", "AddChildSelf", "AddChildParent", "PruneSubtreeForeign", "PruneSubtreeNone",
+           "RemoveChildNone", "RemoveChildForeign", "ReseedAtForeign",
            # weight: reorientations are the mutators with most internal state
            "ReseedAt", "RerootAtNode", "RerootAtEdge", "RerootAtMidpoint", "ToOutgroupPosition", "EncodeBipartitions"]
 REORIENT_FAM = ["ReseedAt", "RerootAtNode", "RerootAtEdge", "RerootAtMidpoint", "ToOutgroupPosition", "Ladderize",
